@@ -24,6 +24,13 @@ for pid in ["C%02d" % i for i in range(1, 19)]:
         shutil.copy('%s/patch%d.diff' % (src, k), d + '/patch.diff')
         shutil.copy('%s/demo%d.rs' % (src, k), d + '/demo.rs')
         detected = sorted(c for c, rc in ph2['checks'].items() if rc == 1)
+        first_run_detected = list(detected)
+        p2b = '%s/res%db/phase2.json' % (src, k)
+        if os.path.exists(p2b):
+            for c, rc in json.load(open(p2b))['checks'].items():
+                if rc == 1 and c not in detected:
+                    detected.append(c)
+            detected.sort()
         machinery = sorted(c for c, rc in ph2['checks'].items() if rc not in (0, 1))
         meta = {
             "property": pid,
@@ -40,6 +47,7 @@ for pid in ["C%02d" % i for i in range(1, 19)]:
                 ],
                 "detected_by_quick_checks": detected,
                 "own_property_check_detects": pid in detected,
+                "own_property_check_detected_on_first_run": pid in first_run_detected,
                 "machinery_exits": machinery,
             },
         }
